@@ -554,9 +554,62 @@ func runC15Stateful(c *Cfg) {
 	})
 }
 
+// sliceResultsIndependent: what one slice conversion returned is the caller's: appending to it (or writing into it)
+// never changes what another conversion returned. Returns a description of the first interference found.
+func sliceResultsIndependent(route string, a, b any) string {
+	conv := func(v any) []any {
+		switch route {
+		case "ToSlice":
+			return flyt.ToSlice(v)
+		case "Result.AsSlice":
+			r, _ := flyt.NewResult(v).AsSlice()
+			return r
+		case "Result.AsSliceOr":
+			return flyt.NewResult(v).AsSliceOr(nil)
+		default:
+			s := flyt.NewSharedStore()
+			s.Set("k", v)
+			return s.GetSlice("k")
+		}
+	}
+	r1 := conv(a)
+	r2 := conv(b)
+	want := append([]any(nil), r2...)
+	r1 = append(r1, "appended-1", "appended-2", "appended-3")
+	for i := range r1 {
+		if i < len(r1)-3 {
+			continue
+		}
+		_ = r1[i]
+	}
+	if len(r2) != len(want) {
+		return fmt.Sprintf("%s: the second result changed length %d -> %d after an append to the first", route, len(want), len(r2))
+	}
+	for i := range want {
+		if !zoo.Same(r2[i], want[i]) {
+			return fmt.Sprintf("%s(%T) returned %v; after appending to the result of an EARLIER %s(%T) call, its element %d reads %s — two conversion results share memory", route, b, want, route, a, i, zoo.Describe(r2[i]))
+		}
+	}
+	return ""
+}
+
 func runC15(c *Cfg) {
 	r := c.Rep
 	runC15Stateful(c)
+	// results of consecutive slice conversions are independent of each other
+	typed := []any{[]int{1, 2, 3}, []string{"a", "b"}, []float64{1.5}, []map[string]any{{"a": 1}}, []int{7}, zoo.NamedSlice{4, 5}, []bool{true, false}, make([]int, 32), make([]string, 33), []any{1, "x"}}
+	for _, route := range []string{"ToSlice", "Result.AsSlice", "Result.AsSliceOr", "SharedStore.GetSlice"} {
+		for ai, a := range typed {
+			for bi, b := range typed {
+				r.Eval()
+				r.Count("slice_independence.pairs", 1)
+				if msg := sliceResultsIndependent(route, a, b); msg != "" {
+					r.Violate("C15", "C15:slice-results-share-memory:"+route, msg, map[string]any{"family": "slice-independence", "route": route, "a": ai, "b": bi})
+				}
+				r.Nontrivial(fmt.Sprintf("si %s %d %d", route, ai, bi))
+			}
+		}
+	}
 	fixed := zoo.Fixed()
 	kindsSeen := map[string]bool{}
 	for _, z := range fixed {
